@@ -506,6 +506,13 @@ func (g *progGen) failingForm() string {
 		f := g.fns[g.r.Intn(len(g.fns))]
 		core = fmt.Sprintf("(%s%s)", f.name, strings.Repeat(" 1", f.arity+1)) // wrong arity
 	}
+	if len(g.globals) > 0 && g.r.Chance(0.12) {
+		// a destructuring (re)definition of globals whose source has the wrong shape: known before anything is bound
+		gl := g.globals[g.r.Intn(len(g.globals))]
+		g2 := g.globals[g.r.Intn(len(g.globals))]
+		return g.r.Pick([]string{fmt.Sprintf("(mdef %s zz9 (list 77))", gl), fmt.Sprintf("(mdef %s %s zz8 (list 77 78))", g2, gl), fmt.Sprintf("(mdef %s %s [77])", gl, g2),
+			fmt.Sprintf("(mdef zz9 %s 7)", gl), fmt.Sprintf("{%s, zz9 = 77}", gl), fmt.Sprintf("(begin (mdef %s zz9 (list 77)))", gl), fmt.Sprintf("(mdef %s %s (list))", gl, g2)})
+	}
 	if g.r.Chance(0.2) {
 		// a redefinition of something that exists, failing while it is being compiled or built: the earlier
 		// definition must survive untouched
